@@ -42,6 +42,10 @@ class Stats:
     self.solver_s = 0.0
     self.feas_queries = 0
     self.feas_unknown = 0
+    # proved obligations re-decided by an independent solver build
+    self.cross_checked = 0
+    self.cross_agree = 0
+    self.cross_disagree = 0
 
   def add(self, r, dt):
     self.solver_s += dt
@@ -56,7 +60,9 @@ class Stats:
     return dict(
         sat=self.sat, unsat=self.unsat, unknown=self.unknown,
         solver_s=round(self.solver_s, 3), feasibility_queries=self.feas_queries,
-        feasibility_unknown=self.feas_unknown)
+        feasibility_unknown=self.feas_unknown,
+        cross_checked=self.cross_checked, cross_agree=self.cross_agree,
+        cross_disagree=self.cross_disagree)
 
   def merge(self, d):
     self.sat += d.get('sat', 0)
@@ -65,6 +71,9 @@ class Stats:
     self.solver_s += d.get('solver_s', 0)
     self.feas_queries += d.get('feasibility_queries', 0)
     self.feas_unknown += d.get('feasibility_unknown', 0)
+    self.cross_checked += d.get('cross_checked', 0)
+    self.cross_agree += d.get('cross_agree', 0)
+    self.cross_disagree += d.get('cross_disagree', 0)
 
 
 CUR = None  # current Engine
@@ -275,6 +284,9 @@ class Engine:
         extra=list(hints) + [z3.Not(goal)], timeout_ms=timeout_ms,
         use_defs=use_defs)
     if r == 'unsat':
+      if _cross_check(s) == 'sat':
+        # two solver builds disagree: no verdict
+        return 'unknown', None, s
       return 'proved', None, s
     if r == 'sat':
       return 'cex', m, s
@@ -283,6 +295,57 @@ class Engine:
   def feasible(self, timeout_ms=30000):
     r, m, _ = self.check_sat(timeout_ms=timeout_ms)
     return r, m
+
+
+# ---------------------------------------------------------------------------
+# second opinion on proved obligations
+
+CROSS_BIN = '/usr/bin/z3'  # z3 4.8.12 (the Python API in use is z3 5.1)
+_CROSS_LEFT = [None]
+
+
+def _cross_check(solver):
+  """Re-decides the first VERIF_CROSS_N proved obligations of this process
+  with an independent solver build (SMT-LIB2 dump, 10 s).  Returns the
+  second verdict ('unsat', 'sat', 'unknown') or None when not sampled."""
+  import os  # pylint: disable=g-import-not-at-top
+  if _CROSS_LEFT[0] is None:
+    try:
+      _CROSS_LEFT[0] = int(os.environ.get('VERIF_CROSS_N', '0') or 0)
+    except ValueError:
+      _CROSS_LEFT[0] = 0
+    if not os.path.exists(CROSS_BIN):
+      _CROSS_LEFT[0] = 0
+  if _CROSS_LEFT[0] <= 0:
+    return None
+  _CROSS_LEFT[0] -= 1
+  import subprocess  # pylint: disable=g-import-not-at-top
+  import tempfile  # pylint: disable=g-import-not-at-top
+  try:
+    text = solver.to_smt2()
+    if len(text) > 4 * 10**6:
+      return None
+    with tempfile.NamedTemporaryFile('w', suffix='.smt2', delete=False) as f:
+      f.write(text)
+      name = f.name
+    try:
+      out = subprocess.run([CROSS_BIN, '-T:10', '-smt2', name],
+                           capture_output=True, text=True, timeout=25,
+                           check=False).stdout
+    finally:
+      os.unlink(name)
+  except Exception:  # pylint: disable=broad-except
+    return None
+  STATS.cross_checked += 1
+  lines = [l.strip() for l in out.splitlines() if l.strip()]
+  if any(l.startswith('(error') for l in lines):
+    return 'unknown'
+  verdict = lines[0] if lines else 'unknown'
+  if verdict == 'unsat':
+    STATS.cross_agree += 1
+  elif verdict == 'sat':
+    STATS.cross_disagree += 1
+  return verdict if verdict in ('sat', 'unsat') else 'unknown'
 
 
 # ---------------------------------------------------------------------------
